@@ -563,8 +563,10 @@ func c35Unit(s string) string {
 	return string(r)
 }
 
-func c35FirstDiff(a, b []c35Item) (x, y c35Item) {
-	for i := 0; ; i++ {
+// c35FirstDiff returns the index of the first position at which the two item
+// lists differ, and the items there ("END" past the end of a list).
+func c35FirstDiff(a, b []c35Item) (i int, x, y c35Item) {
+	for i = 0; ; i++ {
 		x, y = c35Item{kind: "END"}, c35Item{kind: "END"}
 		if i < len(a) {
 			x = a[i]
@@ -585,54 +587,170 @@ func c35Opens(kind string) bool {
 	return kind == "html-block" || (strings.HasPrefix(kind, "<") && !strings.HasPrefix(kind, "</"))
 }
 
-func c35KindUnit(it c35Item) string {
-	if it.kind == "text" {
+var c35SchemeRe = regexp.MustCompile(`^[a-zA-Z][a-zA-Z0-9+.-]{1,31}:`)
+
+// c35Construct names the source construct behind the output item items[i], as
+// far as cheap inspection of the item, its neighbours and the (1-minimal)
+// document can tell. It is the "cause class" part of a violation key: two
+// divergences share a key only if they also agree on it.
+func c35Construct(doc string, items []c35Item, i int) string {
+	if i >= len(items) {
+		return "END"
+	}
+	it := items[i]
+	switch it.kind {
+	case "text":
 		return "text(" + c35Unit(it.raw) + ")"
+	case "<a>":
+		text := ""
+		if i+2 < len(items) && items[i+1].kind == "text" && items[i+2].kind == "</a>" {
+			text = html.UnescapeString(items[i+1].raw)
+		}
+		switch {
+		case text != "" && strings.HasPrefix(it.raw, `<a href="mailto:`) && strings.Contains(doc, "<"+text+">"):
+			// the known weak spot of the scanner is a local part whose first
+			// character also opens a raw-HTML construct
+			if strings.ContainsRune("!?/", rune(text[0])) {
+				return "email-autolink(local-part-starts-with-[!?/])"
+			}
+			return "email-autolink(other)"
+		case text != "" && c35SchemeRe.MatchString(text) && strings.Contains(doc, "<"+text+">"):
+			return "uri-autolink"
+		case strings.Contains(it.raw, ` title="`):
+			return "inline-link(with-title)"
+		}
+		return "inline-link"
+	case "<img>":
+		if strings.Contains(it.raw, ` title="`) {
+			return "image(with-title)"
+		}
+		return "image"
+	case "raw-html", "html-block":
+		r := strings.TrimLeft(it.raw, " ")
+		low := strings.ToLower(r)
+		sub := "tag"
+		switch {
+		case strings.HasPrefix(r, "<!--"):
+			sub = "comment"
+		case strings.HasPrefix(r, "<?"):
+			sub = "processing-instruction"
+		case strings.HasPrefix(r, "<![CDATA["):
+			sub = "cdata"
+		case strings.HasPrefix(r, "<!"):
+			sub = "declaration"
+		case strings.HasPrefix(low, "<pre") || strings.HasPrefix(low, "<script") || strings.HasPrefix(low, "<style") || strings.HasPrefix(low, "<textarea"):
+			sub = "pre-script-style-textarea"
+		case strings.HasPrefix(r, "</"):
+			sub = "closing-tag"
+		case !strings.HasPrefix(r, "<"):
+			sub = "text"
+		}
+		return it.kind + "(" + sub + ")"
+	case "<ul>", "<ol>":
+		// an empty first item is its own class (marker followed by nothing)
+		if i+2 < len(items) && items[i+1].kind == "<li>" && items[i+2].kind == "</li>" {
+			return it.kind + "(empty-item)"
+		}
+		if it.kind == "<ol>" && strings.Contains(it.raw, "start=") {
+			return "<ol>(start-not-1)"
+		}
 	}
 	return it.kind
 }
 
-// c35DiffKey names the first point at which two normalised outputs diverge.
-// If the block structure differs, it is the first differing block element
-// ("blocks:elvish:<ul>/commonmark:END"); otherwise the first differing inline
-// element, and for two text runs the first differing character or entity.
+// c35Before names the nearest element before position i (the context in which
+// the divergence happens); blockOnly restricts it to block-level items.
+func c35Before(items []c35Item, i int, blockOnly bool) string {
+	for k := min(i, len(items)) - 1; k >= 0; k-- {
+		if items[k].kind == "text" || (blockOnly && !items[k].block) {
+			continue
+		}
+		return items[k].kind
+	}
+	return "START"
+}
+
+var c35AttrRe = regexp.MustCompile(` ([a-z]+)="[^"]*$`)
+
+// c35DiffKey names the first point at which two normalised outputs diverge,
+// together with a cause class taken from the constructs involved and their
+// context, so that two unrelated root causes are unlikely to share a key:
+//
+//	blocks:...   the block structure differs: which block element one side
+//	             opens that the other does not (kind of HTML block, empty list
+//	             item, ...) and after which block element
+//	inline:...   the same blocks, but one side has an inline element where the
+//	             other has text or another element; elements are named by their
+//	             source construct (uri-autolink, email-autolink(...), inline-link,
+//	             image, raw-html(comment), ...)
+//	attributes-of:<x>:<attr>, content-of:...   same element, different details
+//	text:in:<x>:...   same elements, text differs: enclosing element and the
+//	             first differing character or entity on each side
 func c35DiffKey(doc, got, want string) string {
 	a, b := c35Items(got), c35Items(want)
 	var ab, bb []c35Item
 	for _, it := range a {
 		if it.block {
-			ab = append(ab, c35Item{kind: it.kind, raw: it.kind})
+			ab = append(ab, it)
 		}
 	}
 	for _, it := range b {
 		if it.block {
-			bb = append(bb, c35Item{kind: it.kind, raw: it.kind})
+			bb = append(bb, it)
 		}
 	}
-	if x, y := c35FirstDiff(ab, bb); x.kind != y.kind {
+	// compare block skeletons by kind only
+	ak, bk := make([]c35Item, len(ab)), make([]c35Item, len(bb))
+	for i, it := range ab {
+		ak[i] = c35Item{kind: it.kind, raw: it.kind}
+	}
+	for i, it := range bb {
+		bk[i] = c35Item{kind: it.kind, raw: it.kind}
+	}
+	if i, x, y := c35FirstDiff(ak, bk); x.kind != y.kind {
 		// an extra block on one side is named without what happens to follow it
 		xo, yo := c35Opens(x.kind), c35Opens(y.kind)
+		after := ":after:" + c35Before(ab, i, true)
 		switch {
 		case xo && !yo:
-			return "blocks:elvish-opens:" + x.kind
+			return "blocks:elvish-opens:" + c35Construct(doc, ab, i) + after
 		case yo && !xo:
-			return "blocks:commonmark-opens:" + y.kind
+			return "blocks:commonmark-opens:" + c35Construct(doc, bb, i) + after
 		}
-		return "blocks:elvish:" + x.kind + "/commonmark:" + y.kind
+		return "blocks:elvish:" + c35Construct(doc, ab, i) + "/commonmark:" + c35Construct(doc, bb, i) + after
 	}
-	x, y := c35FirstDiff(a, b)
+	i, x, y := c35FirstDiff(a, b)
 	if x.kind != y.kind {
-		return "inline:elvish:" + c35KindUnit(x) + "/commonmark:" + c35KindUnit(y)
+		return "inline:elvish:" + c35Construct(doc, a, i) + "/commonmark:" + c35Construct(doc, b, i) + ":in:" + c35Before(a, i, false)
 	}
 	if x.kind != "text" {
 		if x.kind == "html-block" || x.kind == "raw-html" {
-			return "content-of:" + x.kind
+			return "content-of:elvish:" + c35Construct(doc, a, i) + "/commonmark:" + c35Construct(doc, b, i)
 		}
-		return "attributes-of:" + x.kind
+		j := 0
+		for j < len(x.raw) && j < len(y.raw) && x.raw[j] == y.raw[j] {
+			j++
+		}
+		attr := "?"
+		if m := c35AttrRe.FindStringSubmatch(x.raw[:j]); m != nil {
+			attr = m[1]
+		} else if strings.HasSuffix(x.raw[:j], " ") || j >= len(x.raw) || j >= len(y.raw) {
+			attr = "presence"
+		}
+		return "attributes-of:" + c35Construct(doc, a, i) + ":" + attr
 	}
 	j := 0
 	for j < len(x.raw) && j < len(y.raw) && x.raw[j] == y.raw[j] {
 		j++
+	}
+	// One text run is a prefix of the other: the shorter side goes on with an
+	// element where the longer side goes on with text. That is an element/text
+	// divergence and is keyed like one (e.g. "x<!@a>" like "<!@a>").
+	if j == len(y.raw) && j < len(x.raw) && i+1 < len(b) && c35Opens(b[i+1].kind) && !b[i+1].block {
+		return "inline:elvish:text(" + c35Unit(x.raw[j:]) + ")/commonmark:" + c35Construct(doc, b, i+1) + ":in:" + c35Before(a, i, false)
+	}
+	if j == len(x.raw) && j < len(y.raw) && i+1 < len(a) && c35Opens(a[i+1].kind) && !a[i+1].block {
+		return "inline:elvish:" + c35Construct(doc, a, i+1) + "/commonmark:text(" + c35Unit(y.raw[j:]) + "):in:" + c35Before(a, i, false)
 	}
 	// back up to the start of an entity or UTF-8 sequence
 	for k := j; k > 0 && k > j-8; k-- {
@@ -647,7 +765,7 @@ func c35DiffKey(doc, got, want string) string {
 	for j > 0 && j < len(x.raw) && !utf8.RuneStart(x.raw[j]) {
 		j--
 	}
-	key := "text:elvish:" + c35Unit(x.raw[j:]) + "/commonmark:" + c35Unit(y.raw[min(j, len(y.raw)):])
+	key := "text:in:" + c35Before(a, i, false) + ":elvish:" + c35Unit(x.raw[j:]) + "/commonmark:" + c35Unit(y.raw[min(j, len(y.raw)):])
 	if r, _ := utf8.DecodeRuneInString(x.raw[j:]); j < len(x.raw) && (r < 0x20 || r >= 0x7f) && r != '\n' && strings.ContainsRune(doc, r) {
 		key += ":literal-in-source"
 	}
